@@ -15,7 +15,11 @@ D.FileStream = lambda f, *a, **k: InputStream("")      # stub: no file is read i
 
 def cmd(name, args, block=None, cleaned=""):
     """args: list of texts (token type Identifier) or (type, text) pairs"""
-    return (block, cleaned if block is not None else "", name, [a if isinstance(a, tuple) else (hc.ID, a) for a in args])
+    def conv(a):
+        if isinstance(a, list):
+            return [conv(x) for x in a]
+        return a if isinstance(a, tuple) else (hc.ID, a)
+    return (block, cleaned if block is not None else "", name, [conv(a) for a in args])
 
 
 def real_documenter(settings=None, title="T", module_name="m"):
@@ -35,10 +39,18 @@ def real_page(cmds, settings=None, title="T", module_name="m", module_block=None
     return doc.writer.to_text()
 
 
+def arg_text(a):
+    """an argument as written; a parenthesised group = its arguments separated by single blanks (inter-token layout is not
+    part of the token sequence: C04)"""
+    if isinstance(a, list):
+        return "(" + " ".join(arg_text(x) for x in a) + ")"
+    return a[1]
+
+
 def spec_state(cmds, flags=delta.DEFAULT_FLAGS, trigger=":keyword", strip=delta.no_strip):
     st = delta.State()
     for (block, cleaned, name, args) in cmds:
-        delta.step(st, block is not None, cleaned, name, [t for (_, t) in args], flags, trigger, strip)
+        delta.step(st, block is not None, cleaned, name, [arg_text(a) for a in args], flags, trigger, strip)
     return st
 
 
